@@ -338,6 +338,21 @@ func c07FlowCases() []c07FlowInput {
 					c := base
 					c.CB = 99 // also below the accepted block
 					out = append(out, c)
+				case phase == "failed":
+					// every transmit event type that is not a perform, the unknown ones included
+					for _, ety := range []int{0, 2, 3, 4, 5, 200} {
+						c := base
+						c.ETy = ety
+						out = append(out, c)
+					}
+				case phase == "expired":
+					out = append(out, base)
+					// windows below / at / above one second, through the factory's config decoding
+					for _, w := range []int64{1, 500, 999, 1000, 1001} {
+						c := base
+						c.Cfg.WindowMs = w
+						out = append(out, c)
+					}
 				default:
 					out = append(out, base)
 				}
@@ -391,11 +406,11 @@ func c07FlowGen(r *Rng) c07FlowInput {
 	}
 	in.Cfg = c06Cfg{MinConf: []int{0, 1, 3}[r.Intn(3)], WindowMs: int64([]int{20000, 60000, 1200000}[r.Intn(3)])}
 	if in.Phase == "expired" {
-		in.Cfg.WindowMs = 20000
+		in.Cfg.WindowMs = []int64{1, 400, 999, 1000, 20000}[r.Intn(5)]
 	}
 	in.B = uint64(r.Range(50, 150))
 	in.TB = in.B + uint64(r.Range(1, 30))
-	in.ETy = r.Range(2, 4)
+	in.ETy = []int{0, 2, 3, 4, 5, 77}[r.Intn(6)]
 	switch {
 	case in.Phase == "performed" && in.Type == 0:
 		in.CB = uint64(int64(in.TB) + int64(r.Range(-1, 1)))
